@@ -279,11 +279,14 @@ def realNumber (t : List UInt8) : Option (List UInt8) :=
 /-- decimal value of a digit string -/
 def decVal (t : List UInt8) : Nat := t.foldl (fun a d => a * 10 + (d.toNat - 48)) 0
 
+/-- an optional leading `+` is dropped (`FromStr` for integers) -/
+def stripPlus : List UInt8 → List UInt8
+  | 43 :: rest => rest
+  | t => t
+
 /-- `str::from_utf8(tok)?.parse::<u64>()` (`none` = `Err`): optional `+`, one or more digits, `≤ u64::MAX` -/
 def parseU64 (t : List UInt8) : Option Nat :=
-  let ds := match t with
-    | 43 :: rest => rest
-    | _ => t
+  let ds := stripPlus t
   if ds.isEmpty || !allDigits ds then none
   else if decVal ds > 18446744073709551615 then none else some (decVal ds)
 
@@ -294,9 +297,7 @@ def parseI32 (t : List UInt8) : Option Int :=
     if ds.isEmpty || !allDigits ds then none
     else if decVal ds > 2147483648 then none else some (- (decVal ds : Int))
   | _ =>
-    let ds := match t with
-      | 43 :: rest => rest
-      | _ => t
+    let ds := stripPlus t
     if ds.isEmpty || !allDigits ds then none
     else if decVal ds > 2147483647 then none else some (decVal ds : Int)
 
